@@ -53,7 +53,7 @@ fn tokenize(s: &str) -> Vec<String> {
 
 pub fn mutated_input(ctx: &Ctx, bytes: &[u8]) -> (String, &'static str) {
     let mut c = Chooser::new(bytes);
-    let kind = c.weighted(&[30, 18, 8, 6, 8, 5, 25]);
+    let kind = c.weighted(&[30, 18, 8, 6, 8, 5, 25, 9]);
     // base program
     let base_len = (bytes.len() * 2 / 3).max(1).min(bytes.len());
     let base = if c.boolean() {
@@ -165,6 +165,42 @@ pub fn mutated_input(ctx: &Ctx, bytes: &[u8]) -> (String, &'static str) {
             )
         }
         5 => (base, "unmodified"),
+        7 => {
+            // one long or exotic token inserted or substituted: a compound token (`: cns`, `== 0`,
+            // `0 <=`) whose inner whitespace is a run of non-ASCII white space, a very long
+            // identifier or number, a run of multi-byte characters
+            let ws = ["\u{a0}", "\u{2003}", "\u{3000}", "\u{2028}", "\t", " ", "\u{1680}"];
+            let run = |c: &mut Chooser, n: usize| -> String {
+                let w = ws[c.choose(ws.len())];
+                let mut s = String::new();
+                for i in 0..n {
+                    s.push_str(if i % 5 == 4 { ws[c.choose(ws.len())] } else { w });
+                }
+                s
+            };
+            let n = 1 + c.choose(48);
+            let tok = match c.choose(8) {
+                0 => format!(":{}cns", run(&mut c, n)),
+                1 => format!("=={}0", run(&mut c, n)),
+                2 => format!("0{}<=", run(&mut c, n)),
+                3 => format!("!={}0", run(&mut c, n)),
+                4 => format!("x{}", "y".repeat(20 + 10 * n)),
+                5 => "7".repeat(10 + 3 * n),
+                6 => "\u{3bb}".repeat(n),
+                _ => format!("0{}>", run(&mut c, n)),
+            };
+            let mut toks = tokenize(&base);
+            if toks.is_empty() {
+                return (tok, "exotic-token");
+            }
+            let i = c.choose(toks.len());
+            if c.boolean() {
+                toks.insert(i, tok);
+            } else {
+                toks[i] = tok;
+            }
+            (toks.join(" "), "exotic-token")
+        }
         _ => {
             // random syntax trees: always parse, almost never type-check (stress for the checker),
             // sometimes with one typed definition mixed in
